@@ -25,6 +25,8 @@ def instances(tier):
         # a failed rotation must not cost records either (the fault machinery is C08's subject)
         I("size_a_fault", trig="size", count=2, limit=2, sizes=(1, 3), maxrec=4, faults=1, pre="PreNone"),
         I("post_a_obst", trig="post", count=2, sizes=(1, 2), maxrec=3, obst=1, pre="PreNone"),
+        # ... nor may a compressed archive whose last piece cannot be written (the newest archive's name takes no byte)
+        I("size_gz_full", trig="size", count=1, limit=2, sizes=(1, 3), maxrec=4, obst=1, gz=True, pre="PreNone"),
         # a failing encoder leaves part of a record behind: the acknowledged records around it stay whole and in order
         I("pre_encfail", trig="pre", count=2, sizes=(1, 2), maxrec=4, encfail=1, restart=1, pre="PreNone"),
         I("post_encfail", trig="post", count=2, sizes=(1, 2), maxrec=3, encfail=1, crash=1, pre="PreNone"),
